@@ -231,6 +231,7 @@ structure State where
   dead : Bool := false                        -- the process has died (nothing it does from here on exists)
   ncommit : Nat := 0                          -- commit boundaries passed in the current op
   crashed : Bool := false                     -- the current op ended with a death + restart
+  deadDb : Option Db := none                  -- the database file as the process that died in the current op left it
   rhLimit : Option Int := none
   prevBase : Option Int := none
   prevSeqPts : List Int := []
@@ -833,7 +834,7 @@ inductive Op where
   deriving Repr
 
 def clearOp (s : State) : State :=
-  { s with launched := [], polls := [], ghosts := [], db := none, ncommit := 0, crashed := false }
+  { s with launched := [], polls := [], ghosts := [], db := none, ncommit := 0, crashed := false, deadDb := none }
 
 /-- the queue-if-ready sweep over waiting, unqueued, released proxies -/
 def sweepQueue (s : State) : State :=
@@ -996,7 +997,7 @@ def restart (g : Graph) (s : State) : State :=
 /-- the scheduler process dies here and now, then a new one is started: memory (pool, queued database operations,
 message queue, stop requests) is lost -/
 def crashRestart (g : Graph) (s : State) : State :=
-  { (startFrom g s) with crashed := true }
+  { (startFrom g s) with crashed := true, deadDb := some s.cdb }
 
 /-- a main loop during which the process dies at its `k`-th commit boundary (if it gets that far) -/
 def loopCrash (g : Graph) (s : State) (k : Nat) : State :=
